@@ -304,8 +304,19 @@ func TestVerif_C22_Calls(t *testing.T) {
 			rep.Diverge("leader:not-an-operator", fmt.Sprintf("getLeader returned %q which is not one of the wallet's operators", leader), lc, "one of the operators", string(leader))
 			return
 		}
-		setKey := seedHex + "/" + v.c.Get("su").JSON()
-		viewKey := v.c.Get("ops").JSON()
+		// keys in terms of the concrete operators (global numbering), not the model's:
+		// different wallets map the model operators to different addresses
+		uniq := map[int]bool{}
+		for _, n := range v.nums {
+			uniq[n] = true
+		}
+		var set []int
+		for n := range uniq {
+			set = append(set, n)
+		}
+		sort.Ints(set)
+		setKey := seedHex + "/" + fmt.Sprint(set)
+		viewKey := fmt.Sprint(v.nums)
 		if prev, ok := leaderOf[setKey]; ok && prev.leader != leader {
 			if prev.view == viewKey {
 				rep.Diverge("leader:depends-on-executor-history",
